@@ -80,7 +80,18 @@ class _Subst(ast.NodeTransformer):
         return node
 
     def visit_FunctionDef(self, node):
-        return node  # do not descend into nested defs of the helper
+        # a nested def of the helper (a closure over the helper's parameters and locals): substitute its free names only
+        own = {a.arg for a in node.args.posonlyargs + node.args.args + node.args.kwonlyargs}
+        if node.args.vararg:
+            own.add(node.args.vararg.arg)
+        if node.args.kwarg:
+            own.add(node.args.kwarg.arg)
+        own |= {n.id for b in node.body for n in ast.walk(b) if isinstance(n, ast.Name) and isinstance(n.ctx, ast.Store)}
+        inner = _Subst({k: v for k, v in self.mapping.items() if k not in own}, {k: v for k, v in self.rename.items() if k not in own})
+        node.body = [inner.visit(b) for b in node.body]
+        if node.name in self.rename:
+            node.name = self.rename[node.name]
+        return node
 
     def visit_Lambda(self, node):
         return node
@@ -116,8 +127,12 @@ def _tail_returns_only(stmts):
         elif isinstance(s, (ast.For, ast.While, ast.Try, ast.With)):
             if any(isinstance(n, ast.Return) for n in ast.walk(s)):
                 return False
-        elif isinstance(s, (ast.FunctionDef, ast.ClassDef)):
+        elif isinstance(s, ast.ClassDef):
             return False
+        elif isinstance(s, ast.FunctionDef):
+            # a closure defined at the top of the helper: its own returns are not the helper's
+            if any(isinstance(n, (ast.Yield, ast.YieldFrom, ast.Global, ast.Nonlocal)) for n in ast.walk(s)) or s.decorator_list:
+                return False
     return True
 
 
@@ -324,7 +339,7 @@ class Inliner:
         body = self._body(helper)
         if not body or len(body) > MAX_HELPER_STMTS or helper.qual == caller.qual:
             return False
-        if helper.nested or helper.is_property or helper.is_classmethod:
+        if helper.is_property or helper.is_classmethod:
             return False
         if any(isinstance(n, (ast.Yield, ast.YieldFrom, ast.Global, ast.Nonlocal, ast.Lambda)) for n in ast.walk(helper.node)):
             return False
@@ -709,9 +724,120 @@ class Inliner:
                         ast.fix_missing_locations(m.node)
                         self.inlined.append((m.qual, h.qual))
 
+    def expand_updates(self):
+        """`X.update(G(args))` with G a new generator helper  ->  `for (k, v) in G(args): X[k] = v` (what dict.update does with
+        an iterable of pairs); the generator-loop rule below then brings G's body in"""
+        n = 0
+        for q, f in list(self.prog.functions.items()):
+            if f.parent is not None:
+                continue
+            for parent in ast.walk(f.node):
+                for fld in ("body", "orelse", "finalbody"):
+                    stmts = getattr(parent, fld, None)
+                    if not isinstance(stmts, list):
+                        continue
+                    for i, s in enumerate(stmts):
+                        v = s.value if isinstance(s, ast.Expr) else None
+                        if not (isinstance(v, ast.Call) and isinstance(v.func, ast.Attribute) and v.func.attr == "update" and len(v.args) == 1
+                                and not v.keywords and isinstance(v.args[0], ast.Call)):
+                            continue
+                        h, _self = self._helper_for(f, v.args[0])
+                        if h is None or not any(isinstance(x, ast.Yield) for x in ast.walk(h.node)):
+                            continue
+                        recv = v.func.value
+                        if not (isinstance(recv, ast.Name) or (isinstance(recv, ast.Attribute) and isinstance(recv.value, ast.Name))):
+                            continue
+                        k, val = f"k__upd{n}", f"v__upd{n}"
+                        n += 1
+                        store = ast.Assign(targets=[ast.Subscript(value=copy.deepcopy(recv), slice=ast.Name(id=k, ctx=ast.Load()), ctx=ast.Store())],
+                                           value=ast.Name(id=val, ctx=ast.Load()))
+                        loop = ast.For(target=ast.Tuple(elts=[ast.Name(id=k, ctx=ast.Store()), ast.Name(id=val, ctx=ast.Store())], ctx=ast.Store()),
+                                       iter=v.args[0], body=[store], orelse=[])
+                        ast.copy_location(loop, s)
+                        ast.fix_missing_locations(loop)
+                        stmts[i] = loop
+        return n
+
+    def expand_generator_lists(self):
+        """`S[list(G(args))]` with G a new generator helper and S a return / assignment that merely wraps the call
+        (`np.column_stack(list(G(x, y)))`)  ->  `t = []; for e in G(args): t.append(e); S[t]`; the generator-loop rule then
+        brings G's body in"""
+        n = 0
+
+        def simple(e):
+            while isinstance(e, ast.Attribute):
+                e = e.value
+            if isinstance(e, ast.Call) and dotted(e.func) in ("set", "list", "dict", "frozenset", "tuple") and not e.args and not e.keywords:
+                return True  # `set().union(...)`: an empty container made on the spot
+            return isinstance(e, (ast.Name, ast.Constant))
+
+        for q, f in list(self.prog.functions.items()):
+            if f.parent is not None:
+                continue
+            for parent in ast.walk(f.node):
+                for fld in ("body", "orelse", "finalbody"):
+                    stmts = getattr(parent, fld, None)
+                    if not isinstance(stmts, list):
+                        continue
+                    i = 0
+                    while i < len(stmts):
+                        s = stmts[i]
+                        i += 1
+                        if not (isinstance(s, (ast.Return, ast.Assign)) and s.value is not None):
+                            continue
+                        # path of wrapping calls from the statement's value down to list(G(...))
+                        node, target = s.value, None
+                        chain_ok = True
+                        star = None
+                        while True:
+                            if isinstance(node, ast.Call) and dotted(node.func) in ("list", "tuple") and len(node.args) == 1 and not node.keywords \
+                                    and isinstance(node.args[0], ast.Call):
+                                h, _self = self._helper_for(f, node.args[0])
+                                if h is not None and any(isinstance(x, ast.Yield) for x in ast.walk(h.node)):
+                                    target = node
+                                    break
+                            if not (isinstance(node, ast.Call) and simple(node.func)):
+                                chain_ok = False
+                                break
+                            # f(*G(args)): unpacking a generator is unpacking the list of what it yields
+                            stars = [a for a in node.args if isinstance(a, ast.Starred) and isinstance(a.value, ast.Call)]
+                            if len(stars) == 1 and len(node.args) == 1 and not node.keywords:
+                                h, _self = self._helper_for(f, stars[0].value)
+                                if h is not None and any(isinstance(x, ast.Yield) for x in ast.walk(h.node)):
+                                    star = stars[0]
+                                    wrapped = ast.Call(func=ast.Name(id="list", ctx=ast.Load()), args=[star.value], keywords=[])
+                                    ast.copy_location(wrapped, star.value)
+                                    ast.fix_missing_locations(wrapped)
+                                    star.value = wrapped
+                                    target = wrapped
+                                    break
+                            inner = [a for a in node.args if isinstance(a, ast.Call)]
+                            others = [a for a in node.args if not isinstance(a, ast.Call)] + [k.value for k in node.keywords]
+                            if len(inner) != 1 or not all(simple(a) for a in others):
+                                chain_ok = False
+                                break
+                            node = inner[0]
+                        if not chain_ok or target is None or dotted(target.func) != "list":
+                            continue
+                        tmp, el = f"gen__list{n}", f"gen__item{n}"
+                        n += 1
+                        init = ast.Assign(targets=[ast.Name(id=tmp, ctx=ast.Store())], value=ast.List(elts=[], ctx=ast.Load()))
+                        app = ast.Expr(value=ast.Call(func=ast.Attribute(value=ast.Name(id=tmp, ctx=ast.Load()), attr="append", ctx=ast.Load()),
+                                                      args=[ast.Name(id=el, ctx=ast.Load())], keywords=[]))
+                        loop = ast.For(target=ast.Name(id=el, ctx=ast.Store()), iter=target.args[0], body=[app], orelse=[])
+                        for x in (init, loop):
+                            ast.copy_location(x, s)
+                            ast.fix_missing_locations(x)
+                        _replace_node(s, target, ast.copy_location(ast.Name(id=tmp, ctx=ast.Load()), target))
+                        stmts[i - 1:i - 1] = [init, loop]
+                        i += 2
+        return n
+
     def run(self):
         self.propagate_constants()
         self.inline_properties()
+        self.expand_updates()
+        self.expand_generator_lists()
         for _ in range(MAX_ROUNDS):
             changed = False
             for q, f in list(self.prog.functions.items()):
@@ -788,9 +914,11 @@ def normalise_expressions(prog):
 
     class N0(_Expr):
         # only the rewrites that keep the familiar spelling of the reference code
+        PAIR_SOURCES = ("product", "itertools.product")   # the reference writes p[0] / p[1] over product(...) only
         def visit_Compare(self, node):
             self.generic_visit(node)
-            return node
+            g = self._getattr_compare(node)
+            return g if g is not None else node
 
         def visit_Call(self, node):
             self.generic_visit(node)
@@ -801,11 +929,46 @@ def normalise_expressions(prog):
             self.generic_visit(node)
             return node
 
+    def split_tuple_assignments(stmts):
+        """`a, b = (e1, e2)` -> `a = e1; b = e2` when no later right-hand side reads an earlier target (then evaluating all
+        right-hand sides first and assigning one by one are the same)"""
+        out = []
+        for st in stmts:
+            for fld in ("body", "orelse", "finalbody"):
+                sub = getattr(st, fld, None)
+                if isinstance(sub, list) and sub and isinstance(sub[0], ast.stmt) and not isinstance(st, (ast.FunctionDef, ast.ClassDef)):
+                    setattr(st, fld, split_tuple_assignments(sub))
+            if isinstance(st, ast.Try):
+                for h in st.handlers:
+                    h.body = split_tuple_assignments(h.body)
+            if isinstance(st, ast.Assign) and len(st.targets) == 1 and isinstance(st.targets[0], ast.Tuple) and isinstance(st.value, ast.Tuple) \
+                    and len(st.targets[0].elts) == len(st.value.elts) and not any(isinstance(x, ast.Starred) for x in st.targets[0].elts + st.value.elts) \
+                    and all(isinstance(t, ast.Name) or (isinstance(t, ast.Attribute) and isinstance(t.value, ast.Name)) for t in st.targets[0].elts):
+                tg, vs = st.targets[0].elts, st.value.elts
+                texts = [ast.unparse(t) for t in tg]
+                safe = len(set(texts)) == len(texts)
+                for i, t in enumerate(texts):
+                    base = t.split(".")[0]
+                    for v in vs[i + 1:]:
+                        vt = ast.unparse(v)
+                        if t in vt or (isinstance(tg[i], ast.Name) and any(isinstance(n, ast.Name) and n.id == base for n in ast.walk(v))):
+                            safe = False
+                    # a call on the right may read anything
+                    if any(isinstance(n, ast.Call) for v in vs[i + 1:] for n in ast.walk(v)) and isinstance(tg[i], ast.Attribute):
+                        safe = False
+                if safe:
+                    for t, v in zip(tg, vs):
+                        out.append(ast.copy_location(ast.Assign(targets=[t], value=v), st))
+                    continue
+            out.append(st)
+        return out
+
     for f in prog.functions.values():
         if f.parent is not None:
             continue
         try:
-            N0(None).visit(f.node)
+            N0(f.node).visit(f.node)
+            f.node.body = split_tuple_assignments(f.node.body)
             ast.fix_missing_locations(f.node)
         except Exception:  # noqa: BLE001
             pass
